@@ -473,3 +473,20 @@ M('c20-cap-clobbered', 'C20', 'svd.py', None, None,
          ("        if Y_curr.shape[1] > r1:\n            Y_curr, _ = matrix_skeleton(Y_curr, e, r1)\n        r1 = Y_curr.shape[1]\n\n        G = np.empty([r0, n, r1])", "        if Y_curr.shape[1] > r:\n            Y_curr, _ = matrix_skeleton(Y_curr, e, r)\n        r = Y_curr.shape[1]\n\n        G = np.empty([r0, n, r])")])
 T('c19-twin-poly-memo-full-key', ['C09', 'C10', 'C19'], 'tensors.py', None, None,
   edits=[("    def _get(m, j):\n        return (m + shift[j])**power", "    terms = {}\n\n    def _get(m, j):\n        key = (n[j], shift[j])\n        if key not in terms:\n            terms[key] = (np.arange(n[j]) + shift[j])**power\n        return terms[key][m]")])
+
+
+# ------------------------------------------------------------------ round k rules (pure value changes)
+M('c01-mul-pair-order', 'C01', 'act_two.py', "        G = G1[:, None, :, :, None] * G2[None, :, :, None, :]\n        G = G.reshape([G1.shape[0]*G2.shape[0], -1, G1.shape[-1]*G2.shape[-1]])\n        Y.append(G)", "        G = G1[:, None, :, None, :] * G2[None, :, :, :, None]\n        G = G.reshape([G1.shape[0]*G2.shape[0], -1, G1.shape[-1]*G2.shape[-1]])\n        Y.append(G)")
+M('c01-mulscalar-pair-order', ['C01', 'C16'], 'act_two.py', "        G = G1[:, None, :, :, None] * G2[None, :, :, None, :]\n        G = G.reshape([G1.shape[0]*G2.shape[0], -1, G1.shape[-1]*G2.shape[-1]])\n        G = np.sum(G, axis=1)", "        G = G1[:, None, :, None, :] * G2[None, :, :, :, None]\n        G = G.reshape([G1.shape[0]*G2.shape[0], -1, G1.shape[-1]*G2.shape[-1]])\n        G = np.sum(G, axis=1)")
+T('c01-twin-mul-both-swapped', ['C01', 'C16'], 'act_two.py', None, None,
+  edits=[("        G = G1[:, None, :, :, None] * G2[None, :, :, None, :]\n        G = G.reshape([G1.shape[0]*G2.shape[0], -1, G1.shape[-1]*G2.shape[-1]])", "        G = G1[None, :, :, None, :] * G2[:, None, :, :, None]\n        G = G.reshape([G1.shape[0]*G2.shape[0], -1, G1.shape[-1]*G2.shape[-1]])")])
+M('c03-interleave-swapped', 'C03', 'svd.py', "np.hstack((ind1, ind2))", "np.hstack((ind2, ind1))")
+M('c05-accuracy-order', 'C05', 'cross.py', "                Y[i] = np.tensordot(R, Y[i], 1)\n                info['r'] = teneva.erank(Y)\n                info['e'] = teneva.accuracy(Y, Yold)", "                Y[i] = np.tensordot(R, Y[i], 1)\n                info['r'] = teneva.erank(Y)\n                info['e'] = teneva.accuracy(Yold, Y)")
+M('c07-alsfunc-crossed-thresholds', 'C07', 'als_func.py', "_info_appr(info, _time, nswp, e, e_vld, log)", "_info_appr(info, _time, nswp, e_vld, e, log)")
+M('c08-mask-init-padded', 'C08', 'maxvol.py', "    S[I0] = 0", "    S[I] = 0")
+M('c11-show-left-boundary', 'C11', 'vis.py', "    if r[-1] != 1:", "    if r[0] != 1:")
+M('c12-gets-old-grid-nodes', 'C12', 'func.py', "ind_to_poi(I, -1., +1., m[k], 'cheb')", "ind_to_poi(I, -1., +1., n[k], 'cheb')")
+M('c18-cdf-left-side', 'C18', 'stat.py', "np.searchsorted(x, z, 'right')", "np.searchsorted(x, z, 'left')")
+T('c18-twin-cdf-side-keyword', 'C18', 'stat.py', "np.searchsorted(x, z, 'right')", "np.searchsorted(x, z, side='right')")
+M('c19-matrix-delta-transposed-slot', 'C19', 'matrices.py', "    Y[-1][0, ind_col[-1], ind_row[-1], 0] = v", "    Y[-1][0, ind_row[-1], ind_col[-1], 0] = v")
+M('c20-skeleton-args-swapped', 'C20', 'svd.py', "            Y_curr, _ = matrix_skeleton(Y_curr, e, r1)", "            Y_curr, _ = matrix_skeleton(Y_curr, r1, e)")
